@@ -52,7 +52,7 @@ func genDomPatch(r *rand.Rand, target interface{}, typed bool) interface{} {
 		var pc []interface{}
 		for _, c := range conts[2].([]interface{}) {
 			nm := wGet(c, "name")
-			switch r.Intn(5) {
+			switch r.Intn(6) {
 			case 0: // keyed-list delete
 				pc = append(pc, wM(wF("name", nm), wF("$patch", wS("!!str", "delete"))))
 			case 1: // keyed-list merge: set scalar inside the element
@@ -63,6 +63,34 @@ func genDomPatch(r *rand.Rand, target interface{}, typed bool) interface{} {
 					wSet(e, "args", wQ(wS("!!str", "only"))) // atomic list replace
 				}
 				pc = append(pc, e)
+			case 3: // a list with two merge keys (containerPort, protocol): delete / change / add a port
+				tps, ok := wGet(c, "ports").([]interface{})
+				if !ok {
+					break
+				}
+				var pp []interface{}
+				for _, tp := range tps[2].([]interface{}) {
+					kf := [][]interface{}{wF("containerPort", wGet(tp, "containerPort"))}
+					if pr := wGet(tp, "protocol"); pr != nil {
+						kf = append(kf, wF("protocol", pr))
+					}
+					switch r.Intn(3) {
+					case 0:
+						pp = append(pp, wM(append(kf, wF("$patch", wS("!!str", "delete")))...))
+					case 1:
+						pp = append(pp, wM(append(kf, wF("name", wS("!!str", "renamed")))...))
+					}
+				}
+				if r.Intn(3) == 0 {
+					nf := [][]interface{}{wF("containerPort", wS("!!int", "9090"))}
+					if len(tps[2].([]interface{})) > 0 && wGet(tps[2].([]interface{})[0], "protocol") != nil {
+						nf = append(nf, wF("protocol", wS("!!str", "TCP")))
+					}
+					pp = append(pp, wM(nf...))
+				}
+				if pp != nil {
+					pc = append(pc, wM(wF("name", nm), wF("ports", wQ(pp...))))
+				}
 			}
 		}
 		if r.Intn(3) == 0 { // keyed-list add
@@ -123,7 +151,7 @@ func normKeyed(v interface{}, key string) interface{} {
 		for _, c := range x {
 			o = append(o, normKeyed(c, ""))
 			m, ok := c.(map[string]interface{})
-			if !ok || m["name"] == nil {
+			if !ok || (m["name"] == nil && m["containerPort"] == nil) {
 				keyed = false
 			}
 		}
